@@ -62,14 +62,27 @@ def default(obj: Any, default_: object = "", *, allow_false: bool = False) -> An
 
 @with_environment
 @liquid_filter
-@functools.lru_cache(maxsize=10)
-def date(  # noqa: PLR0912 PLR0911
+def date(
     dat: Union[datetime.datetime, str, int],
     fmt: str,
     *,
     environment: Environment,
 ) -> str:
     """Return a string representation of _dat_ using format string _fmt_."""
+    # `Markup("...") == "..."`, so the argument types are part of the cache key.
+    # Otherwise a result formatted with a safe format string would be served,
+    # unescaped, for an equal format string that is not safe (and vice versa).
+    return _date(dat, fmt, (type(dat), type(fmt)), environment=environment)
+
+
+@functools.lru_cache(maxsize=10)
+def _date(  # noqa: PLR0912 PLR0911
+    dat: Union[datetime.datetime, str, int],
+    fmt: str,
+    _types: object,
+    *,
+    environment: Environment,
+) -> str:
     if is_undefined(dat):
         return ""
 
